@@ -133,6 +133,10 @@ func (msg *Message) UnmarshalXML(d *xml.Decoder, start xml.StartElement) error {
 					err = d.DecodeElement(&msg.Subject, &tt)
 				case "error":
 					err = d.DecodeElement(&msg.Error, &tt)
+				default:
+					// Unknown child: consume it entirely. Its descendants must not be mistaken for children of
+					// this stanza (a forwarded or carbon-copied stanza has a descendant with the stanza's own name)
+					err = d.Skip()
 				}
 				if err != nil {
 					return err
